@@ -414,8 +414,9 @@ func (n *ReconcileNode) syncWithAPI(ctx context.Context, node *networkv1beta1.No
 			if node.Status.NetworkInterfaces[id].NetworkInterfaceType == networkv1beta1.ENITypeSecondary {
 				var remote []*aliyunClient.NetworkInterface
 
+				// look the eni up by id only: a detached eni has no instance, with the instance
+				// filter it is never returned and would be forgotten instead of deleted
 				opts = &aliyunClient.DescribeNetworkInterfaceOptions{
-					InstanceID:          &node.Spec.NodeMetadata.InstanceID,
 					NetworkInterfaceIDs: &[]string{id},
 				}
 				if node.Spec.ENISpec.TagFilter != nil {
